@@ -1247,13 +1247,139 @@ where
         ensures r == self.sp_now()
     { unimplemented!() }
 
-    /// purges expired entries. NOT verified by Verus (closure capturing `&mut`); its two loop callees are
-    /// (`remove_expired_wo`, `remove_expired_ao`), the glue arithmetic is checked by the Kani harness `glue_evict_expired`.
-    #[verifier::external_body]
+//@@ FN file=src/unsync/cache.rs owner=Cache name=evict_expired tags=C10,C03 rewrites=inline:rm_expired_ao
     fn evict_expired(&mut self, now: Instant)
-        requires old(self).wf(),
-        ensures Self::rel_purge(*old(self), *final(self)),
-    { unimplemented!() }
+        requires old(self).wf(), old(self).small(), //@
+        ensures //@
+            final(self).cfg_ok(), final(self).same_cfg(old(self)), //@ [C17]
+            final(self).inv_struct(), //@ [C08,C11,C12]
+            final(self).inv_ts(), //@ [C05,C06]
+            final(self).inv_count(), //@ [C10]
+            final(self).inv_weight(), //@ [C10,C03,C04]
+            Self::rel_purge(*old(self), *final(self)), //@ [C15,C14,C12,C01]
+    {
+        let ghost p0 = self.deques.probation@; //@
+        proof { lemma_ord_refl(p0); lemma_wsum_nonneg(p0, self.cache@); } //@
+        if self.time_to_live.is_some() {
+            let (count, weight) = self.remove_expired_wo(EVICTION_BATCH_SIZE, now);
+            proof { lemma_wsum_nonneg(self.deques.probation@, self.cache@); } //@
+            self.entry_count -= count;
+            self.saturating_sub_from_total_weight(weight);
+        }
+        let ghost p1 = self.deques.probation@; //@
+        proof { lemma_wsum_nonneg(p1, self.cache@); } //@
+
+        if self.time_to_idle.is_some() {
+            let deqs = &mut self.deques;
+            let (window, probation, protected, wo, cache, time_to_idle) = (
+                &mut deqs.window,
+                &mut deqs.probation,
+                &mut deqs.protected,
+                &mut deqs.write_order,
+                &mut self.cache,
+                &self.time_to_idle,
+            );
+
+            let (count1, weight1) = Self :: remove_expired_ao ( "window" , window , wo , cache , time_to_idle , EVICTION_BATCH_SIZE , now , );
+            let (count2, weight2) = Self :: remove_expired_ao ( "probation" , probation , wo , cache , time_to_idle , EVICTION_BATCH_SIZE , now , );
+            let (count3, weight3) = Self :: remove_expired_ao ( "protected" , protected , wo , cache , time_to_idle , EVICTION_BATCH_SIZE , now , );
+            proof { lemma_wsum_nonneg(probation@, cache@); lemma_ord_trans(p0, p1, probation@); } //@
+
+            self.entry_count -= count1 + count2 + count3;
+            self.saturating_sub_from_total_weight(weight1);
+            self.saturating_sub_from_total_weight(weight2);
+            self.saturating_sub_from_total_weight(weight3);
+        }
+    }
+//@@ END
+
+    /// `core_wf` for the (unknown to this static function) time-to-live flag
+    pub open spec fn core_wf_any(m: Map<KeyId, ValueEntry<K, V>>, p: Seq<N>, wo: Seq<N>) -> bool { core_wf(m, p, wo, true) || core_wf(m, p, wo, false) }
+
+//@@ FN file=src/unsync/cache.rs owner=Cache name=remove_expired_ao tags=C10,C06
+    fn remove_expired_ao(
+        deq_name: &str,
+        deq: &mut Deque<KeyHashDate<K>>,
+        write_order_deq: &mut Deque<KeyDate<K>>,
+        cache: &mut CacheStore<K, V, S>,
+        time_to_idle: &Option<Duration>,
+        batch_size: usize,
+        now: Instant,
+    ) -> (/*@+*/r: (/*@-*/u64, u64/*@+*/)/*@-*/)
+        requires //@
+            time_to_idle.is_some() ==> dur_ns(time_to_idle.unwrap()) <= max_dur_ns(), //@ [C08]
+            batch_size <= 1000, old(deq)@.len() < 0xFFFF_FFFF, //@
+            // an unused (empty) list, or the probation list of a structurally well-formed cache
+            old(deq)@.len() == 0 || Self::core_wf_any(old(cache)@, old(deq)@, old(write_order_deq)@), //@ [C08,C11]
+        ensures //@
+            old(deq)@.len() == 0 ==> final(deq)@ == old(deq)@ && final(write_order_deq)@ == old(write_order_deq)@ && final(cache)@ == old(cache)@ && r.0 == 0 && r.1 == 0, //@ [C03,C10]
+            forall|ttl: bool| core_wf(old(cache)@, old(deq)@, old(write_order_deq)@, ttl) ==> core_wf(final(cache)@, final(deq)@, final(write_order_deq)@, ttl), //@ [C08,C11,C12]
+            // C10 / C03: the returned pair is exactly what was taken out
+            r.0 == old(deq)@.len() - final(deq)@.len(), //@ [C10]
+            r.1 == wsum(old(deq)@, old(cache)@) - wsum(final(deq)@, final(cache)@), //@ [C10,C03,C04]
+            forall|k: KeyId| #[trigger] final(cache)@.contains_key(k) ==> old(cache)@.contains_key(k) && final(cache)@[k] == old(cache)@[k], //@ [C01,C15]
+            ord_pres(old(deq)@, final(deq)@), //@ [C12,C15]
+    {
+        let mut evicted_entry_count = 0u64;
+        let mut evicted_policy_weight = 0u64;
+        let ghost m0 = cache@; let ghost p0 = deq@; let ghost wo0 = write_order_deq@; //@
+        let ghost ttl = core_wf(m0, p0, wo0, true); //@
+        proof { lemma_wsum_bound(p0, m0); lemma_wsum_nonneg(p0, m0); lemma_ord_refl(p0); } //@
+
+        for _ in 0..batch_size
+            invariant //@
+                time_to_idle.is_some() ==> dur_ns(time_to_idle.unwrap()) <= max_dur_ns(), //@
+                (p0.len() == 0 && deq@ == p0 && write_order_deq@ == wo0 && cache@ == m0) || core_wf(cache@, deq@, write_order_deq@, ttl), //@ [C08,C11,C12]
+                p0.len() > 0 ==> core_wf(m0, p0, wo0, ttl), //@
+                evicted_entry_count == 0 ==> deq@ == p0 && write_order_deq@ == wo0 && cache@ == m0, //@
+                forall|t2: bool| core_wf(m0, p0, wo0, t2) ==> core_wf(cache@, deq@, write_order_deq@, t2), //@ [C08,C11,C12]
+                evicted_entry_count == p0.len() - deq@.len(), //@ [C10]
+                evicted_policy_weight == wsum(p0, m0) - wsum(deq@, cache@), //@ [C10,C03,C04]
+                wsum(deq@, cache@) >= 0, wsum(p0, m0) <= p0.len() * 0xFFFF_FFFF, p0.len() < 0xFFFF_FFFF, //@
+                forall|k: KeyId| #[trigger] cache@.contains_key(k) ==> m0.contains_key(k) && cache@[k] == m0[k], //@ [C01,C15]
+                ord_pres(p0, deq@), //@ [C12,C15]
+        {
+            let key = deq
+                .peek_front()
+                .and_then(|node| /*@+*/-> (o: Option<Option<Rc<K>>>) ensures o.is_some() ==> o.unwrap().is_some() && o.unwrap().unwrap() == node.element.key/*@-*/ {
+                    if Self::is_expired_entry_ao(time_to_idle, node, now) {
+                        Some(Some(Rc::clone(&node.element.key)))
+                    } else {
+                        None
+                    }
+                })
+                .unwrap_or_default();
+
+            if key.is_none() {
+                break;
+            }
+
+            let key = key.unwrap();
+            proof { //@
+                let m = cache@; let p = deq@; let wo = write_order_deq@; //@
+                let kk = kid_rc(key); //@
+                assert(p.len() > 0 && p[0].key == kk); //@
+                assert(core_wf(m, p, wo, ttl)); //@
+                lemma_remove_at(m, p, wo, ttl, 0); //@
+                lemma_wsum_nonneg(p.remove(0), m.remove(kk)); //@
+                lemma_ord_remove(p, 0); lemma_ord_trans(p0, p, p.remove(0)); //@
+                if core_wf(m0, p0, wo0, !ttl) { lemma_remove_at(m, p, wo, !ttl, 0); } //@
+            } //@
+
+            if let Some(mut entry) = cache.remove(&key) {
+                let weight = entry.policy_weight();
+                Deques::unlink_ao_from_deque(deq_name, deq, &mut entry);
+                Deques::unlink_wo(write_order_deq, &mut entry);
+                evicted_entry_count += 1;
+                evicted_policy_weight = evicted_policy_weight.saturating_add(weight as u64);
+            } else {
+                deq.pop_front();
+            }
+        }
+
+        (evicted_entry_count, evicted_policy_weight)
+    }
+//@@ END
 
 //@@ FN file=src/unsync/cache.rs owner=Cache name=has_expiry tags=C05,C06
     fn has_expiry(&self) -> /*@+*/(r:/*@-*/ bool/*@+*/)/*@-*/
@@ -1265,7 +1391,7 @@ where
 
 //@@ FN file=src/unsync/cache.rs owner=Cache name=evict_expired_if_needed tags=C05,C06
     fn evict_expired_if_needed(&mut self) -> /*@+*/(r:/*@-*/ Option<Instant>/*@+*/)/*@-*/
-        requires old(self).wf(), //@
+        requires old(self).wf(), old(self).small(), //@
         ensures //@
             r == old(self).sp_ts(), //@ [C05,C06]
             Self::rel_evict_expired(*old(self), *final(self)), //@ [C03,C15,C17]
@@ -2359,12 +2485,13 @@ where
             r.0 == old(self).deques.probation@.len() - final(self).deques.probation@.len(), //@ [C10]
             r.1 == wsum(old(self).deques.probation@, old(self).cache@) - wsum(final(self).deques.probation@, final(self).cache@), //@ [C10,C03,C04]
             forall|k: KeyId| #[trigger] final(self).cache@.contains_key(k) ==> old(self).cache@.contains_key(k) && final(self).cache@[k] == old(self).cache@[k], //@ [C01,C15]
+            ord_pres(old(self).deques.probation@, final(self).deques.probation@), final(self).expiration_clock == old(self).expiration_clock, //@ [C12,C15]
     {
         let mut evicted_entry_count = 0u64;
         let mut evicted_policy_weight = 0u64;
         let time_to_live = &self.time_to_live;
         let ghost m0 = self.cache@; let ghost p0 = self.deques.probation@; let ghost ttl = self.time_to_live.is_some(); //@
-        proof { lemma_wsum_bound(p0, m0); lemma_wsum_nonneg(p0, m0); } //@
+        proof { lemma_wsum_bound(p0, m0); lemma_wsum_nonneg(p0, m0); lemma_ord_refl(p0); } //@
 
         for _ in 0..batch_size
             invariant //@
@@ -2382,6 +2509,7 @@ where
                 evicted_policy_weight == wsum(p0, m0) - wsum(self.deques.probation@, self.cache@), //@ [C10,C03,C04]
                 wsum(self.deques.probation@, self.cache@) >= 0, wsum(p0, m0) <= p0.len() * 0xFFFF_FFFF, p0.len() < 0xFFFF_FFFF, //@
                 forall|k: KeyId| #[trigger] self.cache@.contains_key(k) ==> m0.contains_key(k) && self.cache@[k] == m0[k], //@ [C01,C15]
+                ord_pres(p0, self.deques.probation@), self.expiration_clock == old(self).expiration_clock, //@ [C12,C15]
         {
             let key = self
                 .deques
@@ -2411,6 +2539,7 @@ where
                 lemma_remove_at(m, p, wo, ttl, i); //@
                 if ttl { lemma_index_of_id(wo, 0); assert(m[kk].wo() == Some(wo[0].id)); } //@
                 lemma_wsum_nonneg(p.remove(i), m.remove(kk)); //@
+                lemma_ord_remove(p, i); lemma_ord_trans(p0, p, p.remove(i)); //@
             } //@
 
             if let Some(mut entry) = self.cache.remove(&key) {
